@@ -39,7 +39,7 @@ def _packet(kind, K, **kw):
     if kind == "arbiter":
         m = c16.ArbMon(kw["n"])
         bad = valid_stable_monitor(m, m.slave, "slave")
-        return H("packet_arbiter_%d.stable" % kw["n"], m, m.free, assume=[m.asm], bad=dict(stable=bad), witness=dict(all_sources_served=m.w), K=K, funcs=F, cfg=dict(kw), show=m.showl, vcycles=30)
+        return H("packet_arbiter_%d.stable" % kw["n"], m, m.free, rigid=[m.J], assume=[m.asm], bad=dict(stable=bad, waiting_master_served_after_at_most_n_other_packets=m.bad_starve), witness=dict(all_sources_served=m.w), K=K, funcs=F, cfg=dict(kw), show=m.showl, vcycles=30)
     if kind == "dispatcher":
         m = c16.DispMon(kw["n"], kw.get("one_hot", False))
         # the selector belongs to the token: it is held while a beat is offered and not yet accepted
